@@ -11,7 +11,7 @@ CTXG = {
     'default': {
         'macros': {'emph': ['m'], 'textbf': ['m-'], 'frac': ['m', 'm'], 'sqrt': ['o', 'm'], 'section': ['s', 'o', 'm'],
                    'item': ['o'], '\\': ['s', 'o0'], 'ensuremath': ['m+'], 'text': ['m-'], 'label': ['m'],
-                   'alpha': [], 'ldots': [], 'unknownmacro': [], ',': [], '%': [], 'hspace': ['s', 'm'], 'mathrm': ['m'],
+                   'alpha': [], 'ldots': [], 'unknownmacro': [], ',': [], '%': [], '$': [], '{': [], '}': [], '&': [], '#': [], '_': [], 'hspace': ['s', 'm'], 'mathrm': ['m'],
                    "'": ['m'], 'footnote': ['o', 'm']},
         'envs': {'itemize': ([], False), 'equation': ([], True), 'center': ([], False), 'unknownenv': ([], False),
                  'my-env': ([], False), 'long-table*': ([], False), 'a.b_c:d/e!f^(g)[h] 1': ([], False),
@@ -163,7 +163,12 @@ def gen_item(rng, cg, budget, in_math, depth, nested):
         body = gen_items(rng, cg, max(0, budget - 2), True, depth + 1, True)
         return ('F', kind, body)
     if r < 0.91:
-        return ('C', ''.join(rng.choice('ab {}$\\%') for _ in range(rng.randint(0, 4))), rng.choice(['\n', '\n  ', '\n']))
+        if rng.random() < 0.25:
+            # a comment whose whole text is a delimiter that could close an enclosing construct
+            ctext = rng.choice(['$', '$$', '}', ']', '\\)', '\\]', '\\end{e}', '{', '\\begin{e}', '>', ')'])
+        else:
+            ctext = ''.join(rng.choice('ab {}$\\%') for _ in range(rng.randint(0, 4)))
+        return ('C', ctext, rng.choice(['\n', '\n  ', '\n']))
     if r < 0.96:
         name = rng.choice(sorted(cg['specials']))
         sig = cg['specials'][name]
